@@ -17,11 +17,20 @@ from tvf.oracles import mis_ref, LD
 
 def gen_history(rng):
     T = int(rng.integers(1, 13))
+    big = rng.random() < 0.04
+    if big:                        # long histories / large batches (thresholds, chunking, accumulation)
+        T = int(rng.integers(30, 70))
     kind = rng.choice(["small", "peaked", "huge", "mixed", "ones"])
     ns = []
     for t in range(T):
         r = rng.random()
         ns.append(1 if r < 0.15 else int(rng.integers(2, 40)) if r < 0.8 else int(rng.integers(40, 300)))
+    if big and rng.random() < 0.5:
+        ns[int(rng.integers(T))] = int(rng.integers(8000, 20000))
+    if rng.random() < 0.1:
+        ns = [ns[0]] * T           # all batches of equal size
+    if rng.random() < 0.05:
+        ns = [T] * T               # batch size == number of iterations
     if kind == "ones":
         ns = [1] * T
     scale = {"small": 1.0, "peaked": 50.0, "huge": 10 ** rng.uniform(3, 6), "mixed": 10 ** rng.uniform(-1, 4),
@@ -83,6 +92,19 @@ def check_history(h):
             lwu, lzu = sm.compute_logw_and_logz(h["beta"], normalize=False)
     if fp:
         bad.append(("fp-exception", f"floating point exception inside compute_logw_and_logz: {fp[0]}"))
+    # a second and third request on the SAME manager with other target temperatures, then the first one again
+    # (per-history caches must be keyed on everything the result depends on)
+    for b2 in (float(h["betas"][0]), 0.5 * (h["beta"] + 1.0)):
+        with np.errstate(all="ignore"):
+            l2, z2 = sm.compute_logw_and_logz(b2)
+        r2u, r2n, r2z, _ = mis_ref(h["logl"], h["betas"], h["logz"], b2)
+        if np.all(np.isfinite(l2)) and (float(np.max(np.abs(l2.astype(LD) - r2n))) > tol or abs(float(z2) - float(r2z)) > tol):
+            bad.append(("second-request-wrong", f"after a request at beta={h['beta']!r}, the request at beta={b2!r} on the same history is off by "
+                        f"{float(np.max(np.abs(l2.astype(LD) - r2n))):.3g} / logz by {abs(float(z2) - float(r2z)):.3g}"))
+    with np.errstate(all="ignore"):
+        lw_again, lz_again = sm.compute_logw_and_logz(h["beta"])
+    if lw_again.shape == lw.shape and (not np.array_equal(lw_again, lw) or lz_again != lz):
+        bad.append(("second-request-wrong", "repeating the first request on the same history gives a different answer"))
     ru, rn, rz, ress = mis_ref(h["logl"], h["betas"], h["logz"], h["beta"])
     N = sum(h["ns"])
     if lw.shape != (N,) or lwu.shape != (N,):
